@@ -264,7 +264,7 @@ def main():
         if qi % 5 == 0:
             ck.sample(dict(sql=sql, privacy_unit=pun, params=prm, noised=[(n, s) for _, cs in nmaps for n, _, s, _ in cs], multipliers=ms))
     from common import budgeted
-    built, results = budgeted(ck, tasks, build_task, lambda qs: smt.solve_all(qs, tq, workers=14, progress=500), tier)
+    built, results = budgeted(ck, tasks, build_task, lambda qs: smt.replayable_models(qs, smt.solve_all(qs, tq, workers=14, progress=500), tq, workers=14), tier)
     for res in built:
         if "unsupported" in res:
             stats["unsupported"][res["unsupported"]] = stats["unsupported"].get(res["unsupported"], 0) + 1
